@@ -48,6 +48,7 @@ func init() {
 		Level: "fault_enumeration",
 		Rule: "conn list: for every kafka.Conn operation and negotiable version, the response of an undisturbed run is measured and then the run is repeated once per cut position k in 0..len-1 and per ending (EOF, ECONNRESET; thorough adds silence until the deadline): the operation must return an error (fetch: a prefix of the complete records, then an error), or exactly the undisturbed result, and the Conn must be dead afterwards. " +
 			"transport list: the same through kafka.Transport.RoundTrip for every API with a reference schema and every version both sides support, with responses filled by a schema-driven generator; afterwards the same call must succeed on a new connection. reader/writer lists: a fixed Reader and Writer scenario re-run with the first fetch / produce response cut at every k (oracles of C02 / C01). " +
+			"sasl list: a SCRAM-SHA-256 authentication (Transport and Dialer, raw tokens after a v0 handshake and framed SaslAuthenticate) with the server-first and the server-final token cut at every byte (every third at quick): the operation must fail and the sasl.StateMachine must never be handed a challenge that is not one of the server's complete tokens (the mechanism is wrapped in a recorder). " +
 			"signature = (path, operation or api, version, ending, outcome class); every case injects a cut, so all are non-trivial",
 		Assumptions: []string{
 			"cut positions are enumerated completely for the sample response of each (path, api, version); other response contents are covered by sampling in C01/C02",
@@ -437,6 +438,7 @@ func runC17(c *core.Ctx) {
 			}
 		}
 	}
+	c17Sasl(c)
 	c.Count("transport_api_versions_measured", int64(len(trefs)))
 	c.CasesPar("transport", len(tcases), 4, func(k *core.Case) {
 		cs := tcases[k.Idx]
